@@ -6,6 +6,6 @@ CONSTANTS
   MARK = {}
   MaxFills = 5
 INVARIANTS TypeOK AvgPositive SideSize Conservation FeesConserved
-PROPERTIES ExitIff Ids QmaxAvg FreshUnreal MarkOnlyUnreal NoPriceStutter
+PROPERTIES ExitIff Ids QmaxAvg FreshUnreal MarkOnlyUnreal NoPriceStutter PersistIsStutter
 VIEW View
 CHECK_DEADLOCK FALSE
